@@ -516,10 +516,16 @@ def expand(prog, f, depth=2, local_only=False, skip_names=()):
     from .desugar import _FuseGen
 
     _propagate_generator_temps(root)
+    before_ = ast.dump(root)
     root = _propagate_callable_temps(root)
+    if ast.dump(root) != before_ and depth > 0:
+        # calls that became visible (partial(F, a)(x) -> F(a, x)) are read like the others
+        ast.fix_missing_locations(root)
+        root.body = [_inline_stmt_exprs(prog, f, st, local_defs, depth, skip_names) for st in root.body]
     root = _FuseGen().visit(root)   # generator arguments substituted into helper comprehensions fuse with them
     root = _fold_record_constants(prog, f.module, root)
     root = _scalarise_records(prog, f.module, root)
+    _drop_dead_local_defs(root)
     ast.fix_missing_locations(root)
     return root
 
@@ -625,6 +631,28 @@ def _walk_same_function(fnode):
         for c in ast.iter_child_nodes(n):
             if not isinstance(c, (ast.FunctionDef, ast.AsyncFunctionDef, ast.Lambda, ast.ClassDef)):
                 todo.append(c)
+
+
+def _drop_dead_local_defs(root):
+    """a nested helper every call of which was read in place is no longer part of the computation"""
+    used = {n.id for n in ast.walk(root) if isinstance(n, ast.Name) and isinstance(n.ctx, ast.Load)}
+
+    def blk(stmts):
+        out = []
+        for st in stmts:
+            if isinstance(st, (ast.FunctionDef, ast.AsyncFunctionDef)) and st is not root and st.name not in used and not st.decorator_list:
+                continue
+            for fld in ("body", "orelse", "finalbody"):
+                b = getattr(st, fld, None)
+                if isinstance(b, list) and b and isinstance(b[0], ast.stmt):
+                    nb = blk(b)
+                    setattr(st, fld, nb or ([ast.Pass()] if fld == "body" else []))
+            for h in getattr(st, "handlers", []) or []:
+                h.body = blk(h.body) or [ast.Pass()]
+            out.append(st)
+        return out
+
+    root.body = blk(root.body) or [ast.Pass()]
 
 
 def _scalarise_records(prog, module, root):
@@ -759,6 +787,9 @@ def _propagate_callable_temps(root):
             # (a user's local qualifies as well when it is bound once to a pure getter: `target_of = attrgetter("a" if ext else "b")`)
             if isinstance(v, ast.Lambda) and _is_inliner_temp(n.targets[0].id):
                 vals[n.targets[0].id] = v
+            elif isinstance(v, ast.Call) and ast.unparse(v.func) in ("partial", "functools.partial") and v.args and not v.keywords \
+                    and all(isinstance(a, (ast.Name, ast.Attribute, ast.Constant)) for a in v.args):
+                vals[n.targets[0].id] = v   # partial(F, a, b): called as F(a, b, x)
             elif isinstance(v, ast.Call) and ast.unparse(v.func) in ("attrgetter", "operator.attrgetter") and len(v.args) == 1 and (
                     isinstance(v.args[0], ast.Constant) or (isinstance(v.args[0], ast.IfExp) and isinstance(v.args[0].test, (ast.Name, ast.Attribute))
                                                             and all(isinstance(x, ast.Constant) for x in (v.args[0].body, v.args[0].orelse)))):
@@ -781,6 +812,8 @@ def _propagate_callable_temps(root):
         def visit_Call(self, node):
             self.generic_visit(node)
             f = node.func
+            if isinstance(f, ast.Call) and ast.unparse(f.func) in ("partial", "functools.partial") and f.args and not f.keywords:
+                return ast.copy_location(ast.Call(func=f.args[0], args=list(f.args[1:]) + list(node.args), keywords=list(node.keywords)), node)
             if isinstance(f, ast.Lambda) and not node.keywords and len(f.args.args) == len(node.args) and not f.args.defaults \
                     and not f.args.vararg and not f.args.kwarg and not f.args.kwonlyargs \
                     and all(isinstance(a, (ast.Name, ast.Constant, ast.Attribute)) for a in node.args):
@@ -796,6 +829,18 @@ def _propagate_callable_temps(root):
     root = _Functional().visit(root)
     ast.fix_missing_locations(root)
     return root
+
+
+def _first_iterable_use(stmt, name):
+    """`name` is read in `stmt` as the outermost iterable of a comprehension or as the iterable of a for loop (the place a generator
+    bound in the statement before is consumed)"""
+    for x in ast.walk(stmt):
+        if isinstance(x, (ast.GeneratorExp, ast.ListComp, ast.SetComp, ast.DictComp)) and isinstance(x.generators[0].iter, ast.Name) \
+                and x.generators[0].iter.id == name:
+            return True
+        if isinstance(x, ast.For) and isinstance(x.iter, ast.Name) and x.iter.id == name:
+            return True
+    return False
 
 
 def _propagate_generator_temps(root):
